@@ -360,3 +360,5 @@ def run(res, facts, tier):
     _run_c16_prev7(res, facts, tier)
     from . import c16_sort
     c16_sort.run_rule(res, facts, tier)
+    from . import c16_collator
+    c16_collator.run_rule(res, facts, tier)
